@@ -1446,3 +1446,13 @@ SPECS["C09"]["level_text"] += (' Props/C09P (track apileft, audit gap 15): the s
     'is unbounded BY DESIGN (C04) - enc_hidden_behind_caller: at every moment drained ++ stable prefix is a prefix of the bytes in front of the caller\'s first pending placeholder, '
     'whatever the encoder appends; the decoder registers and fills nothing (dec_lag_unchanged). The harness suspends the constant-bound oracle while a caller placeholder is pending and '
     'checks instead that nothing at or behind it is consumable.')
+
+SPECS["C02"]["lean_modules"] += ["Woodpile.Props.C02P"]
+SPECS["C02"]["theorems"] += [
+    "Woodpile.Props.C02P.prefilled_no_stuff",
+    "Woodpile.Props.C02P.prefilled_split_independent",
+    "Woodpile.Props.C02P.prefilled_length_bound_prod",
+]
+SPECS["C02"]["level_text"] += (' Props/C02P (track apileft, audit gap 15): for Encoder::new_from_iovec on a PRE-FILLED iovec (any IovInv iovec with nothing pending; see C01 / Props/C01P), '
+    'what the encoder ADDS behind the prefill - (drained ++ flatten) minus the bytes the iovec held - has no stuff sequence, is independent of segmentation / methods / drains AND of what '
+    'the iovec held or how it was structured, and obeys the production length bound.')
